@@ -477,6 +477,7 @@ class Executor:
         self.seeded = seeded
         self.seed_insensitive = seed_insensitive
         self.seed_sites = []
+        self.call_hook = None       # (callee, fsym, args) -> term | None : override a callee's result
 
     # ---- symbol naming ---------------------------------------------------------
     def fsym(self, callee):
@@ -1145,6 +1146,8 @@ class Executor:
                 if not st.assume_eq(d, good):
                     return None
             res = proj(proj(x, ("v", gv), self.enums), ("f", 0), self.enums)
+        if res is None and self.call_hook is not None:
+            res = self.call_hook(callee, fs, args)
         if res is None and self.summaries:
             res = self.summary(st, fr, func, callee, args, argops)
         if res is None:
